@@ -781,6 +781,10 @@ func (h *H) doOp(line string) {
 	}
 	run, w := h.run, h.w
 	h.cur = line
+	if ws[0] == "realclock" {
+		realClockProbe(run)
+		return
+	}
 	if ws[0] == "reset" {
 		// a new self-contained case: fresh share keys on the SAME database, clock set by the line
 		if !h.quiesce() {
@@ -1668,6 +1672,9 @@ func main() {
 			h.doOp(l)
 		}
 		return
+	}
+	if run.N > 0 {
+		realClockProbe(run) // real wall clock, real beacon.Network (up to ~14 s)
 	}
 	// quick tier: n = number of histories
 	for i := 0; i < run.N; i++ {
